@@ -766,6 +766,33 @@ def keeps_results(fi):
     return None
 
 
+def _frozen_table(v, _top=True):
+    """a value that cannot change once made: a constant, a reference to a named object (a type, a function), or a tuple /
+    frozenset of such — a dispatch table written as a tuple of (type, handler) pairs is a constant of the program"""
+    v = strip_cast(v)
+    if _immutable_constant(v):
+        return True
+    if not _top and (isinstance(v, ast.Name) or (isinstance(v, ast.Attribute) and A.dotted(v) is not None)):
+        return True     # (an entry that names an object; a variable that is just another name for an object is not a table)
+    if isinstance(v, ast.Tuple):
+        return all(_frozen_table(x, False) for x in v.elts)
+    if isinstance(v, ast.Call) and isinstance(v.func, ast.Name) and v.func.id in ("frozenset", "tuple") and not v.keywords \
+            and all(isinstance(a, (ast.Tuple, ast.List, ast.Set)) and all(_frozen_table(x, False) for x in a.elts) for a in v.args):
+        return True
+    return False
+
+
+def _class_constant(mod, ci, attr):
+    """is `attr` of class `ci` bound once, in the class body, to a value that cannot change, and stored to nowhere in the module?"""
+    vals = [st.value for st in ci.node.body
+            if (isinstance(st, ast.Assign) and any(isinstance(t, ast.Name) and t.id == attr for t in st.targets))
+            or (isinstance(st, ast.AnnAssign) and isinstance(st.target, ast.Name) and st.target.id == attr and st.value is not None)]
+    if len(vals) != 1 or not _frozen_table(vals[0]):
+        return False
+    return not any(isinstance(n, ast.Attribute) and n.attr == attr and isinstance(n.ctx, (ast.Store, ast.Del)) for n in ast.walk(mod.tree)) \
+        and not any(isinstance(n, ast.Call) and isinstance(n.func, ast.Name) and n.func.id in ("setattr", "delattr") for n in ast.walk(mod.tree))
+
+
 def outliving_state_reads(fa, expr, at, _depth=2, _seen=()):
     """What the value of `expr` (at CFG node `at`) is read from that outlives the call and can be rebound or
     changed by another one: names the function declares global / nonlocal and reads before it has assigned them,
@@ -794,7 +821,7 @@ def outliving_state_reads(fa, expr, at, _depth=2, _seen=()):
                 continue
             if name in declared or name in rebound:
                 out.add(name)
-            elif name in mod.assigns and not _immutable_constant(mod.assigns[name]):
+            elif name in mod.assigns and not _frozen_table(mod.assigns[name]):
                 out.add(name)
         elif kind == "attr":
             parts = name.split(".")
@@ -802,7 +829,7 @@ def outliving_state_reads(fa, expr, at, _depth=2, _seen=()):
                 out.add(name)
             elif parts[0] in mod.classes and len(parts) > 1:
                 ci = mod.classes[parts[0]]
-                if parts[1] not in ci.methods and parts[1] not in getattr(ci, "nested", {}):
+                if parts[1] not in ci.methods and parts[1] not in getattr(ci, "nested", {}) and not _class_constant(mod, ci, parts[1]):
                     out.add(name)
     # an attribute read off the class of an object: type(x).attr
     try:
